@@ -20,6 +20,8 @@ void __verif_observe_str(const char* tag, const char* s);
 void __verif_observe_bytes(const char* tag, const void* p, size_t n);
 int64_t __verif_concretize(int64_t v);
 void __verif_reach(const char* tag);
+// i-th concrete driver parameter (item['params'] / env VERIF_PARAMS="1,2,3" natively)
+long __verif_param(int i);
 }
 // every entry point has this signature; arguments are concrete parameters
 // chosen by the Python driver (chunk bounds, zone index, year ...)
